@@ -9,7 +9,7 @@ import importlib
 from .c01_oracle import coalescent_sfs, coalescent_sfs_timedep, selection_equilibrium_sfs
 
 PROP = 'C01'
-GENERATED = ['Coeffs', 'Phi1D', 'Phi1DReal', 'Demog1D']
+GENERATED = ['Coeffs', 'Phi1D', 'Phi1DReal', 'Demog1D', 'Demog1DReal']
 NEEDS_BUILD = True
 DRIVER_MODULES = ['Integ', 'Demog1D']
 
@@ -262,9 +262,11 @@ def coalescent_case(chk, dadi, n, ep, pts, log, as_func, lib=None):
         since = [sum(T / nu for nu, T in ep[k:]) for k in range(len(ep))]
         trans = [k for k in range(1, len(ep)) if ep[k][0] / ep[k - 1][0] >= 50 and (0 < steps[k] <= 64 or 0 < since[k] <= 0.1)]
         def transient(e, p):
-            """F-01a pattern at grid list p: below 3 %, and time-step dominated (a further tenth of the step brings it under 1.5 % and
-            divides it by 3 at least)"""
-            if not (trans and e <= 0.03): return None
+            """F-01a pattern at grid list p: time-step dominated (a further tenth of the step brings it under 1.5 % and divides it by
+            3 at least).  Below 3 % it is the recorded finding; between 3 and 6 % (round 6: at the very corner of the box, nu 0.05 -> 20,
+            n = 30, 4-20 steps after the expansion: up to 4.3 % on converged grids) it is the same shortfall beyond what the finding
+            records and gets its own key (pending_fixes/C01_transient_after_expansion_above_3pct.md)"""
+            if not (trans and e <= 0.06): return None
             try:
                 finer = run_it(1e-5, p)
                 e2 = float(np.max(np.abs(finer - th) / th))
@@ -295,7 +297,8 @@ def coalescent_case(chk, dadi, n, ep, pts, log, as_func, lib=None):
             chk.stats['coalescent_refinements_unresolved'] = chk.stats.get('coalescent_refinements_unresolved', 0) + 1
             tr = transient(errs[1], lists[1])       # the pattern may only show once the grid error is out of the way
         if tr is not None:
-            inp = dict(inp, **tr); suffix = ':1.5pct:transient-after-expansion:below-3pct'; k_ = known_key
+            inp = dict(inp, **tr); k_ = known_key
+            suffix = ':1.5pct:transient-after-expansion:' + ('below-3pct' if tr['err_at_tenth'] <= 0.03 else 'above-3pct')
         ref = '' if len(errs) == 1 else '; with every grid size x2 / x4: %s' % ', '.join('%.2f%%' % (100 * e) for e in errs[1:])
         inp = dict(inp, errors_under_grid_refinement=errs, grid_lists=lists)
         chk.fail(k_ + suffix, '%s: entry %d is %.4g, exact coalescent expectation %.4g (%.2f%% off) at timescale_factor=%g (default 1e-3), pts=%s%s' % (where, i, fine[i-1], th[i-1], 100 * err, tf, pts, ref), inp)
